@@ -647,8 +647,13 @@ class Shadow:
         self.stats[k] = self.stats.get(k, 0) + 1
 
     def parent(self, ln):
+        # robust against what a defective server may have accepted (unknown or cyclic superclass):
+        # such a class counts as a root here and the acceptance itself is reported by the oracle
         s = self.cls[ln].get('sup')
-        return s.lower() if s else None
+        p = s.lower() if s else None
+        if p is None or p not in self.cls or p == ln:
+            return None
+        return p
 
     def children(self, ln):
         return [k for k in self.order if self.parent(k) == ln]
@@ -658,13 +663,14 @@ class Shadow:
         while todo:
             x = todo.pop()
             for k in self.children(x):
-                out.append(k); todo.append(k)
+                if k not in out and k != ln:
+                    out.append(k); todo.append(k)
         return out
 
     def ancestors(self, ln):
         out = []
         x = self.parent(ln)
-        while x is not None:
+        while x is not None and x not in out and x != ln:
             out.append(x); x = self.parent(x)
         return out
 
@@ -1132,7 +1138,7 @@ def _thin(run, keep=25):
 
 def run(run):
     rng = run.rng
-    n = 20000 if run.thorough else 2500
+    n = 15000 if run.thorough else 2500
     run.rule = ('seeded random histories on one namespace: 14 qualifier declarations (flavors of 6 of them drawn from '
                 '{True,False,None}^2), 2..9 (thorough ..12) classes in forests of depth<=5 / fan-out<=4 created by CreateClass or '
                 'add_cimobjects in accepted and non-accepted orders, overriding / new / renamed-override properties and methods, '
